@@ -14,6 +14,12 @@
 #include "bitserializer/pugixml_archive.h"
 #include "bitserializer/types/std/chrono.h"
 #include "bitserializer/types/std/map.h"
+#include "bitserializer/types/std/memory.h"
+#include "bitserializer/types/std/list.h"
+#include "bitserializer/types/std/deque.h"
+#include "bitserializer/types/std/set.h"
+#include "bitserializer/types/std/tuple.h"
+#include "bitserializer/types/std/array.h"
 #include "bitserializer/types/std/optional.h"
 #include "bitserializer/types/std/pair.h"
 #include "bitserializer/types/std/vector.h"
@@ -64,6 +70,61 @@ struct Doc {
 			&& inner == r.inner && numbers == r.numbers && items == r.items && dict == r.dict && pr == r.pr;
 	}
 };
+
+// members of the non-char string widths, chrono values and an enum: they pass through Convert:: on every text archive
+struct WideDoc {
+	std::u16string s16; std::u32string s32; std::wstring sw;
+	std::chrono::system_clock::time_point tp; std::chrono::seconds dur{}; Fruit fruit = Fruit::Apple;
+	std::map<std::u16string, int> wkeys;
+	template <class TArchive> void Serialize(TArchive& archive) {
+		archive << KeyValue("s16", s16) << KeyValue("s32", s32) << KeyValue("sw", sw) << KeyValue("tp", tp) << KeyValue("dur", dur)
+			<< KeyValue("fruit", fruit) << KeyValue("wkeys", wkeys);
+	}
+	bool operator==(const WideDoc& r) const { return s16 == r.s16 && s32 == r.s32 && sw == r.sw && tp == r.tp && dur == r.dur && fruit == r.fruit && wkeys == r.wkeys; }
+};
+inline WideDoc make_wide_doc(unsigned seed) {
+	WideDoc d;
+	const std::string t = "wide \xD0\x9F\xD1\x80 \xF0\x9F\x98\x80 #" + std::to_string(seed);
+	d.s16 = Convert::To<std::u16string>(t); d.s32 = Convert::To<std::u32string>(t); d.sw = Convert::To<std::wstring>(t);
+	d.tp = std::chrono::system_clock::time_point(std::chrono::seconds(static_cast<int64_t>(seed) * 86399 - 40000000));
+	d.dur = std::chrono::seconds(seed * 61); d.fruit = static_cast<Fruit>(seed % 3);
+	d.wkeys = { { Convert::To<std::u16string>("k" + std::to_string(seed)), 1 }, { u"other", 2 } };
+	return d;
+}
+
+// owning members: every adapter that creates an object before it loads into it (seeded change S15: a pointee that
+// nobody owns while it is being loaded leaks when the load throws)
+struct OwnerDoc {
+	std::unique_ptr<Inner> uptr;
+	std::shared_ptr<Inner> sptr;
+	std::optional<Inner> opt;
+	std::vector<std::unique_ptr<Inner>> uptrs;
+	std::list<std::shared_ptr<Inner>> sptrs;
+	std::deque<std::optional<std::string>> opts;
+	std::set<std::string> names;
+	std::tuple<int, std::string, std::unique_ptr<Inner>> tup;
+	std::array<std::shared_ptr<std::string>, 2> arr;
+	std::unique_ptr<std::vector<std::string>> uvec;
+	template <class TArchive> void Serialize(TArchive& archive) {
+		archive << KeyValue("uptr", uptr) << KeyValue("sptr", sptr) << KeyValue("opt", opt) << KeyValue("uptrs", uptrs)
+			<< KeyValue("sptrs", sptrs) << KeyValue("opts", opts) << KeyValue("names", names) << KeyValue("tup", tup)
+			<< KeyValue("arr", arr) << KeyValue("uvec", uvec);
+	}
+};
+inline OwnerDoc make_owner_doc(unsigned seed) {
+	OwnerDoc d;
+	d.uptr = std::make_unique<Inner>(Inner{ static_cast<int>(seed), "a long label that lives on the heap, number " + std::to_string(seed) });
+	d.sptr = std::make_shared<Inner>(Inner{ 2, "shared label that lives on the heap as well" });
+	d.opt = Inner{ 3, "optional label, also longer than the small string buffer" };
+	for (int i = 0; i < 3; ++i) d.uptrs.push_back(std::make_unique<Inner>(Inner{ i, "element label on the heap #" + std::to_string(i) }));
+	for (int i = 0; i < 2; ++i) d.sptrs.push_back(std::make_shared<Inner>(Inner{ i, "list element label on the heap #" + std::to_string(i) }));
+	d.opts = { std::string("first optional string, long enough for the heap"), std::string("x") };
+	d.names = { "name one is long enough for the heap", "name two" };
+	d.tup = std::make_tuple(7, std::string("tuple string long enough for the heap"), std::make_unique<Inner>(Inner{ 9, "tuple pointee label on the heap" }));
+	d.arr = { std::make_shared<std::string>("array element string on the heap, first"), std::make_shared<std::string>("second") };
+	d.uvec = std::make_unique<std::vector<std::string>>(std::vector<std::string>{ "vector behind a pointer, long enough for the heap", "b" });
+	return d;
+}
 
 // the same with validators: `i32` must be in [0, 10], `text` is required, `missing` is required and never present
 struct ValidatedDoc {
